@@ -19,8 +19,8 @@ from . import common
 from .common import Check, MachineryError, run_tlc, seed, tier
 
 TOWERS = [
-    {"name": "north", "lat": 50.0004, "lon": 11.0004, "z_m": 8.0},
-    {"name": "alpha", "lat": 50.0002, "lon": 11.0009, "z_m": 12.0},
+    {"name": "north", "lat": 50.0004, "lon": 11.0004, "z_m": 12.0},      # heights in no sorted order either (12, 8, 10)
+    {"name": "alpha", "lat": 50.0002, "lon": 11.0009, "z_m": 8.0},
     {"name": "mid", "lat": 50.0005, "lon": 11.0013, "z_m": 10.0},
 ]
 
